@@ -543,7 +543,7 @@ impl Render {
                 self.simple(&v)
             }
             Cmd::RedirErr(k) => {
-                let target = *self.rng.pick(&["</nonexistent/f", "< /nonexistent/f", ">/nonexistent/dir/f", "3</nonexistent/f"]);
+                let target = *self.rng.pick(&["</nonexistent/f", "< /nonexistent/f", "<\"/nonexistent/f\"", "3</nonexistent/f"]);
                 match *k {
                     "regular" => self.simple(&["st".into(), "0".into(), target.into()]),
                     "special" => self.simple(&[":".into(), target.into()]),
@@ -569,15 +569,16 @@ impl Render {
                 self.simple(&w)
             }
             Cmd::TrapExit(b) => {
-                // the action is rendered on one line inside single quotes
-                let mut inner = Render { rng: Rng::new(1), out: String::new() };
-                for (i, it) in b.iter().enumerate() {
-                    if i > 0 {
-                        inner.out.push_str("; ");
-                    }
-                    inner.item(it);
-                }
-                let text = inner.out.replace('\n', "; ");
+                // the action is rendered on one line inside single quotes, without surface variation
+                let text = b
+                    .iter()
+                    .map(|it| {
+                        let mut inner = Render { rng: Rng::new(1), out: String::new() };
+                        inner.item(it);
+                        inner.out.replace("\\\n", "").replace('\n', "; ").replace('\t', " ")
+                    })
+                    .collect::<Vec<_>>()
+                    .join("; ");
                 self.simple(&["trap".into(), format!("'{text}'"), "EXIT".into()])
             }
             Cmd::Def(n, c) => {
